@@ -1,7 +1,9 @@
 import JivaVerif.Drv.Replica
 import JivaVerif.Drv.Controller
+import JivaVerif.Drv.Rpc
 def main (args : List String) : IO Unit := do
   match args with
   | ["replica"] => Jiva.Drv.replicaMain
   | ["ctl"] => Jiva.Drv.ctlMain
-  | _ => IO.eprintln "usage: drv replica|ctl"
+  | ["rpc"] => Jiva.Drv.rpcMain
+  | _ => IO.eprintln "usage: drv replica|ctl|rpc"
